@@ -55,6 +55,8 @@ struct Eval {
     reports: usize,
     nodes_with_value: usize,
     pass_claims: usize,
+    /// (id, message, start, end of the primary label) of every pass report
+    findings: Vec<(String, String, usize, usize)>,
 }
 
 fn count_value_nodes(cfg: &Cfg) -> usize {
@@ -111,6 +113,14 @@ fn evaluate(path: &std::path::Path, prelude: &str, src: &str, curve_idx: usize, 
         pass_reports.extend(pass(&mut ctx, &cfg));
     }
     e.reports = pass_reports.len();
+    e.findings = pass_reports
+        .iter()
+        .map(|r| {
+            let (a, b) = r.primary().first().map(|l| (l.range.start, l.range.end)).unwrap_or((0, 0));
+            (r.id(), r.message().to_string(), a, b)
+        })
+        .collect();
+    e.findings.sort();
     // (4) claims made by the passes themselves, matched to IR nodes through their labels
     let mut quadratic_claims: Vec<(crate::interp::NodeId, usize, String)> = Vec::new();
     let mut always_claims: Vec<(crate::interp::NodeId, bool, String)> = Vec::new();
@@ -163,7 +173,31 @@ fn evaluate(path: &std::path::Path, prelude: &str, src: &str, curve_idx: usize, 
             }
         }
     }
+    // a `<--` with a division that draws no CS0015 report, in a definition without any IsZero
+    // instance, can only have been let through because its divisor is taken for a constant
+    let has_iszero = cfg.iter().any(|bb| bb.iter().any(|s| format!("{s:?}").contains("IsZero")));
+    let mut division_claims = 0;
+    if !has_iszero {
+        for bb in cfg.iter() {
+            for s in bb.iter() {
+                if let program_structure::ir::Statement::Substitution { op: program_structure::ir::AssignOp::AssignSignal, rhe, .. } = s {
+                    let inner = match rhe {
+                        program_structure::ir::Expression::Update { rhe: inner, .. } => inner.as_ref(),
+                        other => other,
+                    };
+                    if let program_structure::ir::Expression::InfixOp { infix_op: program_structure::ir::ExpressionInfixOpcode::Div, rhe: divisor, .. } = inner {
+                        let reported = pass_reports.iter().any(|r| r.id() == "CS0015" && r.primary().first().map(|l| l.range == divisor.meta().file_location()).unwrap_or(false));
+                        if !reported {
+                            quadratic_claims.push((crate::interp::node_id(divisor), 0, format!("divisor of a `<--` division that draws no warning (taken for a constant): {divisor:?}")));
+                            division_claims += 1;
+                        }
+                    }
+                }
+            }
+        }
+    }
     e.pass_claims = quadratic_claims.len() + always_claims.len() + safe_size_claims.len();
+    let _ = division_claims;
     // (2) constants
     let p: BigInt = gen::PRIMES[curve_idx].parse().unwrap();
     let field = Field::new(&p);
@@ -234,6 +268,26 @@ fn evaluate(path: &std::path::Path, prelude: &str, src: &str, curve_idx: usize, 
     e
 }
 
+/// What a cut may do to the findings of the passes: nothing to those that use no fact,
+/// and only take away from those whose presence needs a fact.
+const FACT_FREE_IDS: [&str; 5] = ["CS0003", "CS0004", "CS0011", "CS0012", "CS0016"];
+const NEEDS_FACT_IDS: [&str; 7] = ["CS0006", "CS0007", "CS0008", "CS0009", "CS0013", "CS0018", "CA01"];
+
+fn cut_relation(uncut: &Eval, cut: &Eval) -> Option<(String, String)> {
+    let mut left = uncut.findings.clone();
+    for f in &cut.findings {
+        if let Some(pos) = left.iter().position(|x| x == f) {
+            left.remove(pos);
+        } else if FACT_FREE_IDS.contains(&f.0.as_str()) || NEEDS_FACT_IDS.contains(&f.0.as_str()) {
+            return Some((format!("finding-gained-by-cut:{}", f.0), format!("only the cut run reports {} `{}` at {}..{}", f.0, f.1, f.2, f.3)));
+        }
+    }
+    if let Some(f) = left.iter().find(|f| FACT_FREE_IDS.contains(&f.0.as_str())) {
+        return Some((format!("fact-free-finding-lost-by-cut:{}", f.0), format!("only the uncut run reports {} `{}` at {}..{}", f.0, f.1, f.2, f.3)));
+    }
+    None
+}
+
 /// A small definition lifted before the judged one in half of the cases.
 pub fn gen_prelude(seed: u64, i: usize) -> String {
     let mut r = Rng::new(seed).sub_n("C20-prelude", i as u64);
@@ -289,6 +343,7 @@ struct DefRes {
     sim_ns: i64,
     facts_lost_by_cut: usize,
     pass_claims: usize,
+    relations_judged: usize,
 }
 
 #[derive(Clone)]
@@ -304,7 +359,7 @@ fn one(scratch: &std::path::Path, seed: u64, i: usize, keys: usize, pairs: usize
     let path = scratch.join(format!("def{i}.circom"));
     let (src, curve_idx) = gen_source(seed, i);
     let prelude = gen_prelude(seed, i);
-    let mut res = DefRes { evals: 0, usable: false, reads: 0, cut_points: 0, pair_cuts: 0, stalls_fired: 0, backsteps_fired: 0, wall_reads: 0, value_claims: 0, degree_claims: 0, violation: None, sim_ns: 0, facts_lost_by_cut: 0, pass_claims: 0 };
+    let mut res = DefRes { evals: 0, usable: false, reads: 0, cut_points: 0, pair_cuts: 0, stalls_fired: 0, backsteps_fired: 0, wall_reads: 0, value_claims: 0, degree_claims: 0, violation: None, sim_ns: 0, facts_lost_by_cut: 0, pass_claims: 0, relations_judged: 0 };
     let mut rk = Rng::new(seed).sub_n("C20-sched", i as u64);
     for _ki in 0..keys {
         let key = rk.bytes16();
@@ -369,6 +424,20 @@ fn one(scratch: &std::path::Path, seed: u64, i: usize, keys: usize, pairs: usize
             let s = Sched { stalls: vec![(j, 11_000_000_000 + rk.below(3_600_000_000_000) as i64)], wall_back: vec![], permille: 0, label: format!("stall at clock read {j} of {reads}") };
             if let Some((e, _)) = run(&s, &mut res) {
                 res.cut_points += 1;
+                if res.violation.is_none() && e.lifted {
+                    if let Some((kind, detail)) = cut_relation(&e0, &e) {
+                        let sig = format!("cut:{kind}");
+                        res.violation = Some((
+                            sig.clone(),
+                            format!("schedule {}: {detail}", s.label),
+                            json!({"kind": "C20", "seed": seed, "index": i, "source": src, "prelude": prelude, "curve": CURVES[curve_idx],
+                                   "hashkey": key.iter().map(|b| format!("{b:02x}")).collect::<String>(), "clock_seed": clock_seed, "oracle_seed": oracle_seed,
+                                   "stalls": s.stalls, "wall_back": s.wall_back, "stall_permille": s.permille, "schedule": s.label, "signature": sig,
+                                   "valuations": valuations, "lines": lines}),
+                        ));
+                    }
+                    res.relations_judged += 1;
+                }
                 res.value_claims += e.value_claims_checked;
                 res.degree_claims += e.degree_claims_judged;
                 if e.nodes_with_value < e0.nodes_with_value {
@@ -499,6 +568,7 @@ pub fn run(env: &Env) -> i32 {
     crate::report::add_probes(
         &mut cov,
         &[
+            ("cut run compared with the uncut run (findings of the passes)", results.iter().map(|r| r.relations_judged).sum::<usize>()),
             ("time box fired", results.iter().map(|r| r.stalls_fired).sum::<usize>()),
             ("a cut left fewer facts than the fixpoint", results.iter().map(|r| r.facts_lost_by_cut).sum::<usize>()),
             ("constant claim judged", results.iter().map(|r| r.value_claims).sum::<usize>()),
